@@ -95,7 +95,15 @@ type verifC03Case struct {
 	Slices [][]verifC03Route `json:"slices"`
 	Mounts []verifC03Mount   `json:"mounts"`
 	Reqs   []verifC03Req     `json:"reqs"`
-	Cors   *verifC03Cors     `json:"cors"` // only with Via == "server"
+	Cors   *verifC03Cors     `json:"cors"`  // only with Via == "server" (same as an Sopts entry "cors")
+	Sopts  []verifC03Sopt    `json:"sopts"` // only with Via == "server": NewServer options, in order
+}
+
+// verifC03Sopt is one NewServer option: nf (WithNotFoundHandler(custom)), nfnil (WithNotFoundHandler(nil)),
+// na (WithNotAllowedHandler(custom)), router (WithRouter(router.NewRouter())), cors (WithCors / WithCustomCors).
+type verifC03Sopt struct {
+	O    string        `json:"o"`
+	Cors *verifC03Cors `json:"cors"`
 }
 
 type verifC03Call struct {
@@ -155,6 +163,7 @@ func TestVerifDriverC03(t *testing.T) {
 		}
 		var hids []int
 		var vars map[string]string
+		nfc, nac, corsMode := 0, 0, ""
 		conf := Config{Timeout: 60000, MaxBytes: 1 << 20}
 		var ng *engine
 		var rt httpx.Router
@@ -162,11 +171,35 @@ func TestVerifDriverC03(t *testing.T) {
 		if c.Via == "server" {
 			var err error
 			sopts := []Option{}
-			if c.Cors != nil && c.Cors.Mode == "custom" {
-				sopts = append(sopts, WithCustomCors(func(h http.Header) { h.Set("X-Verif-Cors", "mw") },
-					func(w http.ResponseWriter) { w.Header().Set("X-Verif-Cors", "na") }, c.Cors.Origins...))
-			} else if c.Cors != nil {
-				sopts = append(sopts, WithCors(c.Cors.Origins...))
+			list := c.Sopts
+			if c.Cors != nil {
+				list = append(list, verifC03Sopt{O: "cors", Cors: c.Cors})
+			}
+			for _, so := range list {
+				switch so.O {
+				case "nf":
+					sopts = append(sopts, WithNotFoundHandler(http.HandlerFunc(func(w http.ResponseWriter, r *http.Request) {
+						nfc++
+						w.Header().Set("X-Verif-NF", "custom")
+					})))
+				case "nfnil":
+					sopts = append(sopts, WithNotFoundHandler(nil))
+				case "na":
+					sopts = append(sopts, WithNotAllowedHandler(http.HandlerFunc(func(w http.ResponseWriter, r *http.Request) {
+						nac++
+						w.WriteHeader(http.StatusMethodNotAllowed)
+					})))
+				case "router":
+					sopts = append(sopts, WithRouter(router.NewRouter()))
+				case "cors":
+					corsMode = so.Cors.Mode
+					if so.Cors.Mode == "custom" {
+						sopts = append(sopts, WithCustomCors(func(h http.Header) { h.Set("X-Verif-Cors", "mw") },
+							func(w http.ResponseWriter) { w.Header().Set("X-Verif-Cors", "na") }, so.Cors.Origins...))
+					} else {
+						sopts = append(sopts, WithCors(so.Cors.Origins...))
+					}
+				}
 			}
 			if srv, err = NewServer(conf, sopts...); err != nil {
 				return map[string]any{"error": "NewServer: " + err.Error()}
@@ -253,7 +286,7 @@ func TestVerifDriverC03(t *testing.T) {
 
 		res := make([]verifC03Res, len(c.Reqs))
 		for i, rq := range c.Reqs {
-			hids, vars = nil, nil
+			hids, vars, nfc, nac = nil, nil, 0, 0
 			var r *http.Request
 			if rq.Raw != "" {
 				if bad, _ := verifdrv.Catch(func() { r = httptest.NewRequest(http.MethodGet, rq.Raw, nil) }); bad || r == nil {
@@ -277,8 +310,10 @@ func TestVerifDriverC03(t *testing.T) {
 			}
 			rec := httptest.NewRecorder()
 			status := 0
+			wire := http.Header{}
 			if panicked, _ := verifdrv.Catch(func() { rt.ServeHTTP(rec, r) }); !panicked {
-				status = rec.Code
+				res := rec.Result() // the response as the client receives it
+				status, wire = res.StatusCode, res.Header
 			}
 			o := verifC03Res{Clean: hex.EncodeToString([]byte(path.Clean(r.URL.Path))), Path: hex.EncodeToString([]byte(r.URL.Path)),
 				Status: status, Hids: append([]int{}, hids...), Vars: [][2]string{}, Allow: []string{}}
@@ -286,22 +321,24 @@ func TestVerifDriverC03(t *testing.T) {
 				o.Vars = append(o.Vars, [2]string{k, hex.EncodeToString([]byte(v))})
 			}
 			sort.Slice(o.Vars, func(a, b int) bool { return o.Vars[a][0] < o.Vars[b][0] })
-			// CORS: was the (replaced) not-allowed handler the one that answered? WithCustomCors: its function
-			// marks the response; WithCors: cors.NotAllowedHandler adds the Vary: Origin header a second time
-			if c.Cors != nil && c.Cors.Mode == "custom" && rec.Header().Get("X-Verif-Cors") == "na" {
-				o.NF = 1
-			} else if c.Cors != nil && c.Cors.Mode != "custom" {
+			// NF = calls of the custom not-found handler + 10 * calls of the custom not-allowed handler
+			//      + 100 if cors.NotAllowedHandler answered (WithCustomCors: its function marks the response;
+			//        WithCors: it adds the Vary: Origin header a second time)
+			o.NF = nfc + 10*nac
+			if corsMode == "custom" && wire.Get("X-Verif-Cors") == "na" {
+				o.NF += 100
+			} else if corsMode != "" && corsMode != "custom" {
 				n := 0
-				for _, v := range rec.Header().Values("Vary") {
+				for _, v := range wire.Values("Vary") {
 					if v == "Origin" {
 						n++
 					}
 				}
 				if n >= 2 {
-					o.NF = 1
+					o.NF += 100
 				}
 			}
-			for _, h := range rec.Header().Values("Allow") {
+			for _, h := range wire.Values("Allow") {
 				o.Allow = append(o.Allow, strings.Split(h, ", ")...)
 			}
 			sort.Strings(o.Allow)
